@@ -4,7 +4,6 @@ package cl
 
 import (
 	"fmt"
-	"io"
 
 	"github.com/ohler55/slip"
 )
@@ -86,7 +85,7 @@ func (f *Defun) Call(s *slip.Scope, args slip.List, depth int) (result slip.Obje
 				fi.Pkg.Name, low, fi.Pkg.Name)
 		}
 		if 0 < len(fi.Kind) {
-			w := s.Get("*error-output*").(io.Writer)
+			w := s.WriterVar("*error-output*", depth)
 			_, _ = fmt.Fprintf(w, "WARNING: redefining %s:%s in defun\n", slip.CurrentPackage.Name, low)
 		}
 	}
